@@ -11888,3 +11888,207 @@ func ruleRefusedLeavesRing(c *Ctx) {
 		c.Fail("refused-leaves-ring", c.P.Pos(add[0].call.Pos()), "Queue.Run can go from the AddItem call back to waiting for the next signal without emptying the element's slot ("+strings.Join(path, " -> ")+"): an element the ledger refused stays in the ring, Put keeps the old element of an index when the real block arrives, and the node never gets past that height however often it is given the right block")
 	}
 }
+
+// ruleRebuildOnlyAdds (C08): RemoveStale rebuilds the conflicts index from nothing (clear / a fresh map) and re-enters
+// the transactions it keeps. While an index is being rebuilt only additions make sense: a remover called for a
+// transaction that was never re-entered finds other transactions' entries under the same key and - removeConflictsOf
+// deletes a key whose list has one element - takes away the entry of a kept transaction. In a function that clears a
+// map index of the pool and appends to it again, no function that deletes from that index is called.
+func ruleRebuildOnlyAdds(c *Ctx) {
+	pk := c.P.Pkg("pkg/core/mempool")
+	if pk == nil {
+		return
+	}
+	info := pk.TypesInfo
+	fieldName := func(e ast.Expr) (string, bool) {
+		se, ok := ast.Unparen(e).(*ast.SelectorExpr)
+		if !ok {
+			return "", false
+		}
+		v, ok := info.ObjectOf(se.Sel).(*types.Var)
+		if !ok || !v.IsField() {
+			return "", false
+		}
+		if _, isMap := v.Type().Underlying().(*types.Map); !isMap {
+			return "", false
+		}
+		return v.Name(), true
+	}
+	// removers per index: functions that delete(mp.X, …)
+	removers := map[string]map[*types.Func]bool{}
+	for _, fd := range c.P.AllFuncDecls() {
+		if fd.Pkg != pk || fd.Decl.Body == nil {
+			continue
+		}
+		ast.Inspect(fd.Decl.Body, func(x ast.Node) bool {
+			if call, ok := x.(*ast.CallExpr); ok {
+				if id, ok := call.Fun.(*ast.Ident); ok && id.Name == "delete" && len(call.Args) == 2 {
+					if fld, ok := fieldName(call.Args[0]); ok {
+						if removers[fld] == nil {
+							removers[fld] = map[*types.Func]bool{}
+						}
+						removers[fld][fd.Obj] = true
+					}
+				}
+			}
+			return true
+		})
+	}
+	n := 0
+	for _, fd := range c.P.AllFuncDecls() {
+		if fd.Pkg != pk || fd.Decl.Body == nil {
+			continue
+		}
+		// indexes this function resets
+		resets := map[string]token.Pos{}
+		ast.Inspect(fd.Decl.Body, func(x ast.Node) bool {
+			switch y := x.(type) {
+			case *ast.CallExpr:
+				if id, ok := y.Fun.(*ast.Ident); ok && id.Name == "clear" && len(y.Args) == 1 {
+					if fld, ok := fieldName(y.Args[0]); ok {
+						resets[fld] = y.Pos()
+					}
+				}
+			case *ast.AssignStmt:
+				for i, l := range y.Lhs {
+					if fld, ok := fieldName(l); ok && i < len(y.Rhs) {
+						if call, ok := ast.Unparen(y.Rhs[i]).(*ast.CallExpr); ok {
+							if id, ok := call.Fun.(*ast.Ident); ok && id.Name == "make" {
+								resets[fld] = y.Pos()
+							}
+						}
+					}
+				}
+			}
+			return true
+		})
+		for fld, at := range resets {
+			if len(removers[fld]) == 0 {
+				continue
+			}
+			n++
+			key := fmt.Sprintf("rebuild-only-adds.%s.%s", shortSym(FuncKey(fd.Obj)), fld)
+			bad := ""
+			ast.Inspect(fd.Decl.Body, func(x ast.Node) bool {
+				call, ok := x.(*ast.CallExpr)
+				if !ok || call.Pos() < at {
+					return true
+				}
+				if fn := calleeFunc(info, call); fn != nil && fn != fd.Obj && removers[fld][fn] {
+					bad = shortSym(FuncKey(fn)) + " at " + c.P.Pos(call.Pos())
+				}
+				return true
+			})
+			if bad == "" {
+				c.OK(key, c.P.Pos(at), "while the index is rebuilt, nothing that removes from it is called")
+			} else {
+				c.Fail(key, c.P.Pos(at), fmt.Sprintf("%s empties Pool.%s, re-enters the transactions it keeps, and calls %s, which removes from that index: called for a transaction that was not re-entered, the remover finds another transaction's entry under the same hash (a list of one) and deletes the key - the kept transaction's conflict is forgotten and the transaction it names is pooled next to it", FuncKey(fd.Obj), fld, bad))
+			}
+		}
+	}
+	c.Floor("rebuilds of a pool index that has removers", n, 1)
+}
+
+// ruleFeePairSameTx (C08, C07): what a transaction costs its payer is its system fee plus its network fee. A sum that
+// takes the two from different transactions (tx.SystemFee + conflictingTx.NetworkFee) is a slip between two loop
+// variables that are both in scope: the amount released for a replaced transaction is then not what was reserved for
+// it, and the payer's pooled fees exceed its balance. Every `A.SystemFee + B.NetworkFee` in the pool and the ledger
+// has A and B the same expression.
+func ruleFeePairSameTx(c *Ctx) {
+	n := 0
+	for _, fd := range c.P.AllFuncDecls() {
+		rel := pkgRel(fd.Pkg.Types)
+		if fd.Decl.Body == nil || !(rel == "pkg/core/mempool" || rel == "pkg/core" || rel == "pkg/core/native") {
+			continue
+		}
+		info := fd.Pkg.TypesInfo
+		k := 0
+		ast.Inspect(fd.Decl.Body, func(x ast.Node) bool {
+			be, ok := x.(*ast.BinaryExpr)
+			if !ok || be.Op != token.ADD {
+				return true
+			}
+			fee := func(e ast.Expr) (string, ast.Expr, bool) {
+				se, ok := ast.Unparen(e).(*ast.SelectorExpr)
+				if !ok || (se.Sel.Name != "SystemFee" && se.Sel.Name != "NetworkFee") {
+					return "", nil, false
+				}
+				if v, ok := info.ObjectOf(se.Sel).(*types.Var); !ok || !v.IsField() {
+					return "", nil, false
+				}
+				return se.Sel.Name, se.X, true
+			}
+			ln, lx, ok1 := fee(be.X)
+			rn, rx, ok2 := fee(be.Y)
+			if !ok1 || !ok2 || ln == rn {
+				return true
+			}
+			n++
+			k++
+			key := fmt.Sprintf("fee-pair-same-tx.%s#%d", shortSym(FuncKey(fd.Obj)), k)
+			if sameExpr(info, lx, rx) {
+				c.OK(key, c.P.Pos(be.Pos()), "both fees of one transaction")
+			} else {
+				c.Fail(key, c.P.Pos(be.Pos()), fmt.Sprintf("%s adds `%s`: the system fee of one transaction and the network fee of another. What a replaced transaction releases for its payer is what was reserved for it - its own two fees; with the system fee of the replacing transaction in the sum the payer's pooled fees no longer fit its balance, and an addition that must fail succeeds", FuncKey(fd.Obj), types.ExprString(be)))
+			}
+			return true
+		})
+	}
+	c.Floor("sums of a system fee and a network fee", n, 4)
+}
+
+// ruleOriginalTxThroughResponse (C15): an oracle callback runs under the signers of the transaction that made the
+// request (Oracle.finish: UseSigners(origTx.Signers)). A request made *from* a callback is made inside the response
+// transaction, whose signers are the oracle nodes and the Oracle contract with scope None - the request has to inherit
+// the original transaction of the request it is a response to, or the second-level callback sees no witness of the
+// user who signed the whole chain with a global scope. The value RequestInternal records as OriginalTxID comes from a
+// function that looks at the OracleResponse attribute of the current transaction.
+func ruleOriginalTxThroughResponse(c *Ctx) {
+	fd := c.P.Func("pkg/core/native", "Oracle", "RequestInternal")
+	if fd == nil {
+		c.Lost("original-tx-through-response.anchor", "Oracle.RequestInternal not found")
+		return
+	}
+	info := fd.Pkg.TypesInfo
+	found := false
+	ast.Inspect(fd.Decl.Body, func(x ast.Node) bool {
+		kv, ok := x.(*ast.KeyValueExpr)
+		if !ok {
+			return true
+		}
+		id, ok := kv.Key.(*ast.Ident)
+		if !ok || id.Name != "OriginalTxID" {
+			return true
+		}
+		found = true
+		looks := false
+		var visit func(e ast.Node, depth int)
+		visit = func(e ast.Node, depth int) {
+			ast.Inspect(e, func(y ast.Node) bool {
+				switch z := y.(type) {
+				case *ast.Ident:
+					if z.Name == "OracleResponseT" {
+						looks = true
+					}
+				case *ast.CallExpr:
+					if fn := calleeFunc(info, z); fn != nil && depth < 2 {
+						if d := c.P.DeclOf(fn); d != nil && d.Decl.Body != nil && d.Pkg == fd.Pkg {
+							visit(d.Decl.Body, depth+1)
+						}
+					}
+				}
+				return true
+			})
+		}
+		visit(kv.Value, 0)
+		if looks {
+			c.OK("original-tx-through-response", c.P.Pos(kv.Pos()), "a request made from an oracle callback inherits the original transaction of the request being answered")
+		} else {
+			c.Fail("original-tx-through-response", c.P.Pos(kv.Pos()), fmt.Sprintf("Oracle.RequestInternal records `%s` as the request's original transaction without looking whether the current transaction is itself an oracle response: a request made from a callback then names the response transaction - signed by the oracle nodes and the Oracle contract with scope None - and the callback of that second request runs without the witnesses of the user who signed the chain of requests, whatever scope they gave", types.ExprString(kv.Value)))
+		}
+		return true
+	})
+	if !found {
+		c.Lost("original-tx-through-response.shape", "RequestInternal no longer builds a request with an OriginalTxID")
+	}
+}
